@@ -74,6 +74,8 @@ type RunSpec struct {
 	// Before: edges the very same project value had when it was walked (and cycle-checked) just before
 	// this run; its depends_on were then rewritten in place to Edges (same services)
 	Before [][2]int `json:"before"`
+	// Cancel: visits that cancel the context the caller gave to the traversal, then return nil
+	Cancel []int `json:"cancel,omitempty"`
 }
 
 func name(i int) string { return fmt.Sprintf("s%d", i) }
@@ -112,7 +114,7 @@ func (rs *RunSpec) project() *types.Project {
 }
 
 func (rs *RunSpec) key() string {
-	return fmt.Sprintf("n=%d e=%v opt=%v rev=%v max=%d roots=%v fail=%v hooks=%v/%s", rs.N, fmt.Sprint(rs.Edges, " before=", rs.Before), fmt.Sprint(rs.Optional, rs.OptionalDisabled), rs.Reverse, rs.Max, rs.Roots, rs.Fail, rs.Hooks, rs.Strategy)
+	return fmt.Sprintf("n=%d e=%v opt=%v rev=%v max=%d roots=%v fail=%v hooks=%v/%s", rs.N, fmt.Sprint(rs.Edges, " before=", rs.Before), fmt.Sprint(rs.Optional, rs.OptionalDisabled), rs.Reverse, rs.Max, rs.Roots, fmt.Sprint(rs.Fail, " cancel=", rs.Cancel), rs.Hooks, rs.Strategy)
 }
 
 // deps[a] = services a depends on; closure etc. computed independently of compose-go.
@@ -197,6 +199,8 @@ type monitor struct {
 	firstErr error
 	errs     map[int]error
 	viol     []core.Violation
+	// cancelled: a visit cancelled the context the caller gave to the traversal
+	cancelled bool
 }
 
 func newMonitor(rs *RunSpec) *monitor {
@@ -297,6 +301,9 @@ func (m *monitor) ret(err error) {
 	}
 	if len(m.errs) == 0 {
 		if err != nil {
+			if m.cancelled {
+				return // the caller's context was cancelled: an error is a faithful answer
+			}
 			m.flag("unexpected-error", "traversal returned an error although no visitor failed: "+err.Error())
 			return
 		}
@@ -394,16 +401,28 @@ func execute(rs *RunSpec, choose chooser) (out outcome) {
 		}
 		opts = append(opts, graph.WithRootNodesAndDown(names))
 	}
+	cancelling := map[int]bool{}
+	for _, f := range rs.Cancel {
+		cancelling[f] = true
+	}
+	parent, cancelParent := context.WithCancel(context.Background())
+	defer cancelParent()
 	var panicked *core.PanicInfo
 	c.Go(func() {
 		var err error
 		panicked = core.Guard(func() {
-			err = graph.InDependencyOrder(context.Background(), proj, func(ctx context.Context, n string, _ types.ServiceConfig) error {
+			err = graph.InDependencyOrder(parent, proj, func(ctx context.Context, n string, _ types.ServiceConfig) error {
 				m.start(n)
 				c.Park("visit", "visit", n)
 				var e error
 				if fail[idx(n)] {
 					e = fmt.Errorf("injected failure of %s", n)
+				}
+				if cancelling[idx(n)] {
+					m.mu.Lock()
+					m.cancelled = true
+					m.mu.Unlock()
+					cancelParent()
 				}
 				m.end(n, e)
 				return e
@@ -720,6 +739,10 @@ func run(s *core.Shard) {
 					if s.Thorough() && f.n >= 2 {
 						// two failing visits
 						r.dfs(&RunSpec{N: f.n, Edges: es, Reverse: rev, Max: max, Fail: []int{0, f.n - 1}}, 60)
+					}
+					if f.n >= 2 && (s.Thorough() || (mask+max)%4 == 2) {
+						// a visit cancels the context the caller gave: nil only if every service was visited all the same
+						r.dfs(&RunSpec{N: f.n, Edges: es, Reverse: rev, Max: max, Cancel: []int{mask % f.n}}, s.Pick(12, 60))
 					}
 					if f.n >= 2 && f.n <= 4 && (s.Thorough() || (mask+max)%4 == 1) {
 						// the same project value walked before with other dependencies (another DAG, or none)
